@@ -115,6 +115,15 @@ fn deliver(ctx: &Ctx, t: &Tree, perm: &Perm, st: &mut Stats) -> Result<(Hash, St
 			}
 			let hs: Vec<_> = (i..=j).map(|k| w.nodes[k].block.header.clone()).collect();
 			let sync_head = chain.header_head().map_err(|e| Fail::new("header_head-err", format!("{:?}", e)))?;
+			if std::env::var("GV_DEBUG").is_ok() {
+				eprintln!("sync chunk {}..={} sync_head h={} {:?}", i, j, sync_head.height, sync_head.last_block_h);
+				for h in &hs {
+					eprintln!("  hdr h={} hash={:?} prev={:?} td={}", h.height, h.hash(), h.prev_hash, h.total_difficulty().to_num());
+				}
+				for k in 0..=n {
+					eprintln!("  node {} parent {} h={} hash {:?}", k, w.nodes[k].parent, w.nodes[k].height(), w.nodes[k].hash());
+				}
+			}
 			chain
 				.sync_block_headers(&hs, sync_head, o)
 				.map_err(|e| Fail::new("valid-headers-rejected", format!("sync_block_headers {}..={}: {}", i, j, err_name(&e))))?;
@@ -346,7 +355,7 @@ pub fn run(ctx: &Ctx) -> HResult<()> {
 	let ev = &ctx.ev;
 	ev.rule("fork trees of 6..20 valid blocks (2..4 branches; SKIP_POW with arbitrary per-block difficulty increments incl. ties, or real PoW) generated by proptest; all headers delivered first (singly or in path chunks), then bodies in 3..4 generated permutations with duplicates and children-before-parents; after every delivery the head is compared with the max-work block among blocks whose ancestors were all delivered, head moves checked for strict work increase via the adapter's acceptance events, and at quiescence head/roots/unspent scan compared across permutations and against the winning chain applied alone; non-trivial = an orphan resolved later AND a losing fork accepted before the winner; distinct by (tree shape, unique max, PoW mode, orphan count)");
 	ev.assume("headers known first (statement precondition); orphan pool capacity (200) never exceeded by ≤20-block worlds");
-	let cases = ctx.n(48, 1000);
+	let cases = ctx.n(320, 6000);
 	let mb = if ctx.quick() { 14 } else { 20 };
 	let _ = mb;
 	if let Some((case, f)) = pbt_proc(ctx, "world", cases, 16) {
